@@ -276,8 +276,12 @@ def record_trace(seed):
             ev = {'op': kind, 'labels': ls, 'relabel': rl}
             if kind == 'reassign':
                 ev['new'] = rng.choice(labs + [rng.randint(1, 14)])
+                if dtype in ('uint8', 'int16') and rng.random() < 0.1:
+                    ev['new'] = int(np.iinfo(dtype).max) + rng.randint(0, 1)
         elif kind == 'relabel_consecutive':
             ev = {'op': kind, 'start': rng.randint(1, 4)}
+            if dtype in ('uint8', 'int16') and rng.random() < 0.3:      # the new labels would exceed the dtype: to be refused, not wrapped
+                ev['start'] = int(np.iinfo(dtype).max) - rng.randint(0, 2)
         elif kind == 'remove_border':
             ev = {'op': kind, 'width': rng.randint(0, max(0, (min(h, w) - 1) // 2)), 'partial': rng.random() < 0.5, 'relabel': rl}
         elif kind == 'remove_masked':
@@ -297,6 +301,8 @@ def record_trace(seed):
             ev = {'op': 'source_mask', 'fp_shape': [sy, sx], 'offsets': offs, 'use_size': bool(full and rng.random() < 0.5)}
         else:
             ev = {'op': 'read', 'attr': rng.choice(ATTRS)}
+        if ev['op'] in ('reassign', 'relabel_consecutive'):
+            ev['dtmax'] = int(min(np.iinfo(dtype).max, 10 ** 6))
         rec = {'ev': ev}
         try:
             ret = apply_event(segm, ev)
